@@ -238,6 +238,9 @@ def build():
         return [ih], z3.Implies(allin.t(t_, whole), allin.t(t_, a_))
     lem = [Lemma("any_anc-concat", [("base", aa_base), ("step", aa_step)], ["C07"]),
            Lemma("all_in_tree-prefix", [("base", ai_base), ("step", ai_step)], ["C07"])]
+    world.trusted_notes.append('findall: the dict used as ordered set (position key -> info) is abstracted as the sequence of its values, with an obligation key == inserted info at every insertion; id(x) is modelled as x itself')
+    world.trusted_notes.append('XPathTransformer.xpath: reversed(args) is a stateful iterator over rev_steps(args) shared by the for loop and next()')
+    world.trusted_notes.append('legacy matcher: parent / parent_field / parent_index / ancestors() are functions of the node for the duration of a match (l_parent, l_chain)')
     return world, lib, reg, lem + lem_legacy
 
 
